@@ -149,3 +149,7 @@ Definition lp_same (P1 P2 : lp) : list bool :=
     rows_close (nvars P1) (lp_rows P1) (lp_rows P2) ].
 Definition c09_case (la ln lv : list (string * string)) (P : lp) (mp : list mrow) (P2 : lp) (mp2 : list mrow) : list bool :=
   lp_same P P2 ++ [map_close (rename_map (assoc la) (assoc ln) (assoc lv) mp) mp2].
+
+(* ---------- C17 ---------- *)
+From EAO Require Import SLP.
+Definition c17_case (P : lp) (fut : list bool) (cs : list vec) (P2 : lp) : list bool := lp_close (slp_lp P fut cs) P2.
